@@ -40,7 +40,10 @@ Definition has_type (t : gtype) (v : gval) : bool :=
   | TBigInt, GBigInt _ => true
   | TBigFloat, GBigFloat txt => text_canon (bs "bf") txt
   | TBigRat, GBigRat (Some _) _ => true
-  | TBigRat, GBigRat None txt => text_canon (bs "rat") txt && negb (Nat.eqb (length txt) 0) && (1 <? go_utf16Length txt)
+  | TBigRat, GBigRat None txt =>
+      (* txt is Rat.String(), "a/b": it has no exponent, so the decoder's cost guard (exponentTooLarge) never applies *)
+      text_canon (bs "rat") txt && negb (Nat.eqb (length txt) 0) && (1 <? go_utf16Length txt) &&
+      negb (exponent_too_large max_text_exponent txt)
   | _, _ => false
   end.
 
@@ -202,11 +205,12 @@ Proof.
     + inversion He; subst.
       eapply rt_value with (x := XPtr (rat_of_int z)); [reflexivity|reflexivity|reflexivity|reflexivity|].
       cbn. apply bytes_eqb_refl.
-    + inversion He; subst. apply andb_prop in Ht. destruct Ht as [Ht Hlen]. apply andb_prop in Ht. destruct Ht as [Ht Hne].
+    + inversion He; subst. apply andb_prop in Ht. destruct Ht as [Ht Hx]. apply negb_true_iff in Hx.
+      apply andb_prop in Ht. destruct Ht as [Ht Hlen]. apply andb_prop in Ht. destruct Ht as [Ht Hne].
       unfold text_canon in Ht. destruct (o_text orc (bs "rat") txt) as [t'| |] eqn:Eo; try discriminate.
       unfold string_wire. assert (go_utf16Length txt <? 0 = false) by lia. rewrite H.
       assert (E : run_action orc SBigRatV (arm SBigRatV (WStr txt)) (WStr txt) = parse_str orc PBigRat 0 NtBigRat txt) by reflexivity.
-      eapply rt_value with (x := XPtr (XBigRat t')); [reflexivity|reflexivity| rewrite E; unfold parse_str; rewrite Eo; reflexivity | reflexivity |].
+      eapply rt_value with (x := XPtr (XBigRat t')); [reflexivity|reflexivity| rewrite E; unfold parse_str; rewrite Hx, Eo; reflexivity | reflexivity |].
       cbn. exact Ht.
   - (* time *) cbn [enc_body] in He.
     destruct (time_fields_split _ _ _ _ _ _ _ Ht) as (Hy & Hmo & Hd & Hh & Hmi & Hs & Hns).
